@@ -14,8 +14,8 @@
 
    Violated clause names are accumulated (`viol` first occurrences, `cnt` counts); the whole
    trace is always examined.  Structural problems (unknown record, Abort, Step outside a run,
-   missing Close) reject the trace.  No named deviation is defined: the unchanged tree
-   satisfies every clause. *)
+   missing Close) reject the trace.  One named deviation, counted in `dev`:
+   InvalidThresholdAccepted (see TConfig). *)
 EXTENDS Looping, TLC, Json, IOUtils, SequencesExt, FiniteSetsExt
 
 TraceLog == ndJsonDeserialize(IOEnv.TRACE)
@@ -25,8 +25,9 @@ VARIABLES l,      \* next record
           inrun,  \* between Config and End
           conf,   \* Config record of the current run
           slots,  \* slot -> [ev, tid, c] : the track last seen in the slot and its counter
-          viol, cnt, stat, cells
-vars == <<l, inrun, conf, slots, viol, cnt, stat, cells>>
+          viol, cnt, stat, cells,
+          dev     \* number of Config records explained only by the named deviation
+vars == <<l, inrun, conf, slots, viol, cnt, stat, cells, dev>>
 Rec == TraceLog[l]
 
 Inc(f, k) == [x \in (DOMAIN f) \cup {k} |-> IF x = k THEN (IF k \in DOMAIN f THEN f[k] ELSE 0) + 1 ELSE f[x]]
@@ -35,34 +36,57 @@ Note(names, id) ==
   /\ cnt' = IncAll(cnt, names)
   /\ viol' = viol \cup {<<n, id, l>> : n \in {m \in names : (IF m \in DOMAIN cnt THEN cnt[m] ELSE 0) < 3}}
 
-Stat0 == [runs |-> 0, steps |-> 0, first |-> 0, loop |-> 0, boundary |-> 0, full |-> 0, short |-> 0,
+Stat0 == [runs |-> 0, refused |-> 0, steps |-> 0, first |-> 0, loop |-> 0, boundary |-> 0, full |-> 0, short |-> 0,
           stopped |-> 0, unexplained |-> 0, cut |-> 0, cutbelow |-> 0, cutanti |-> 0, stopover |-> 0,
           poked |-> 0, nocanloop |-> 0, infloop |-> 0, infshort |-> 0, reusenz |-> 0, arc |-> 0, given |-> 0, inferred |-> 0, reuse |-> 0, clauses |-> 0]
 
-Init == l = 1 /\ inrun = FALSE /\ conf = <<>> /\ slots = <<>> /\ viol = {} /\ cnt = <<>> /\ stat = Stat0 /\ cells = {}
+Init == l = 1 /\ inrun = FALSE /\ conf = <<>> /\ slots = <<>> /\ viol = {} /\ cnt = <<>> /\ stat = Stat0 /\ cells = {} /\ dev = 0
 
 \* ---------------------------------------------------------------- Config
 Abs(x) == IF x < 0 THEN -x ELSE x
-ThrOK(c) ==
+\* the table SimParams built: for every particle the user's entry for its PDG, else the defaults
+ThrMatches(c) ==
   \A i \in DOMAIN c.parts :
      LET p == c.parts[i]
          given == {j \in DOMAIN c.thr_in : c.thr_in[j].pdg = p.pdg}
      IN ("thr" \in DOMAIN p) =>
-          /\ ValidThreshold([mss |-> p.thr.mss, ms |-> p.thr.ms, thr |-> p.thr.rE_thr - c.rE_zero])
-          /\ IF given # {}
-               THEN \E j \in given : /\ p.thr.mss = c.thr_in[j].mss /\ p.thr.ms = c.thr_in[j].ms
-                                     /\ p.thr.rE_thr = c.thr_in[j].rE_thr
-               ELSE /\ p.thr.mss = DefaultThreshold.mss /\ p.thr.ms = DefaultThreshold.ms
-                    /\ p.thr.rE_thr = c.rE_d250
+          IF given # {}
+            THEN \E j \in given : /\ p.thr.mss = c.thr_in[j].mss /\ p.thr.ms = c.thr_in[j].ms
+                                  /\ p.thr.rE_thr = c.thr_in[j].rE_thr
+            ELSE /\ p.thr.mss = DefaultThreshold.mss /\ p.thr.ms = DefaultThreshold.ms
+                 /\ p.thr.rE_thr = c.rE_d250
+\* ... and every entry of a constructed SimParams is a valid LoopingThreshold
+ThrValid(c) ==
+  \A i \in DOMAIN c.parts :
+     LET p == c.parts[i] IN
+     ("thr" \in DOMAIN p) =>
+        ValidThreshold([mss |-> p.thr.mss, ms |-> p.thr.ms, thr |-> p.thr.rE_thr - c.rE_zero])
+(* NAMED DEVIATION InvalidThresholdAccepted (finding F-LOOP-1): SimParams(Input) accepts a user entry
+   for which LoopingThreshold::operator bool is false (max_steps = 0, max_subthreshold_steps = 0 or a
+   negative threshold energy) instead of refusing it.  Scoped exactly: the table matches the input
+   (ThrMatches) and the only invalid entries are the user's own; counted in `dev`, never hidden.
+   A table that differs from the input, or an invalid entry nobody asked for, is the VIOLATION
+   X02.ThresholdTable. *)
+InvalidThresholdAccepted(c) == ThrMatches(c) /\ ~ThrValid(c)
 
 TConfig ==
   /\ Rec.e = "Config" /\ ~inrun
   /\ inrun' = TRUE /\ conf' = Rec /\ slots' = <<>>
-  /\ Note(IF ThrOK(Rec) THEN {} ELSE {"X02.ThresholdTable"}, Rec.run)
-  /\ stat' = [stat EXCEPT !.runs = @ + 1, !.clauses = @ + 1]
+  /\ Note(IF ThrMatches(Rec) THEN {} ELSE {"X02.ThresholdTable"}, Rec.run)
+  /\ dev' = dev + (IF InvalidThresholdAccepted(Rec) THEN 1 ELSE 0)
+  /\ stat' = [stat EXCEPT !.runs = @ + 1, !.clauses = @ + 2]
   /\ UNCHANGED cells
 
-TEnd == Rec.e = "End" /\ inrun /\ inrun' = FALSE /\ slots' = <<>> /\ UNCHANGED <<conf, viol, cnt, stat, cells>>
+\* the constructor refused the thresholds it was given: legitimate only for an invalid entry
+TRefused ==
+  /\ Rec.e = "Refused" /\ ~inrun
+  /\ Note(IF \E j \in DOMAIN Rec.thr_in :
+               ~ValidThreshold([mss |-> Rec.thr_in[j].mss, ms |-> Rec.thr_in[j].ms, thr |-> Rec.thr_in[j].rE_thr - Rec.rE_zero])
+            THEN {} ELSE {"X02.ValidThresholdRefused"}, Rec.run)
+  /\ stat' = [stat EXCEPT !.refused = @ + 1, !.clauses = @ + 1]
+  /\ UNCHANGED <<inrun, conf, slots, dev, cells>>
+
+TEnd == Rec.e = "End" /\ inrun /\ inrun' = FALSE /\ slots' = <<>> /\ UNCHANGED <<conf, viol, cnt, stat, cells, dev>>
 
 \* ---------------------------------------------------------------- Step
 Part(r) == conf.parts[r.pt + 1]
@@ -158,11 +182,11 @@ TStep ==
                    !.inferred = @ + (IF Given(r) THEN 0 ELSE 1),
                    !.reuse = @ + (IF r.ns0 = 0 /\ r.slot \in DOMAIN slots THEN 1 ELSE 0),
                    !.reusenz = @ + (IF r.ns0 = 0 /\ r.slot \in DOMAIN slots /\ slots[r.slot].c > 0 THEN 1 ELSE 0)]
-  /\ UNCHANGED <<inrun, conf>>
+  /\ UNCHANGED <<inrun, conf, dev>>
 
-TClose == Rec.e = "Close" /\ ~inrun /\ l = N /\ UNCHANGED <<inrun, conf, slots, viol, cnt, stat, cells>>
+TClose == Rec.e = "Close" /\ ~inrun /\ l = N /\ UNCHANGED <<inrun, conf, slots, viol, cnt, stat, cells, dev>>
 
-Next == l <= N /\ l' = l + 1 /\ (TConfig \/ TStep \/ TEnd \/ TClose)
+Next == l <= N /\ l' = l + 1 /\ (TConfig \/ TRefused \/ TStep \/ TEnd \/ TClose)
 Spec == Init /\ [][Next]_vars
 
 Accepted ==
@@ -170,5 +194,5 @@ Accepted ==
   IF d - 1 = N /\ TraceLog[N].e = "Close" THEN TRUE
   ELSE /\ PrintT(<<"REJECTED", d, TraceLog[IF d <= N THEN d ELSE N]>>)
        /\ FALSE
-Report == (l = N + 1) => PrintT(<<"SUMMARY", ToJson([viol |-> viol, cnt |-> cnt, stat |-> stat, cells |-> cells])>>)
+Report == (l = N + 1) => PrintT(<<"SUMMARY", ToJson([viol |-> viol, cnt |-> cnt, stat |-> stat, cells |-> cells, dev |-> dev])>>)
 =============================================================================
